@@ -218,10 +218,9 @@ void PrettyPrinter::expr_nary(kind_t kind, uint32_t num)
     default: throw TypeException("Invalid operator");
     }
 
-    string s = st.back();
-    st.pop_back();
-    while (--num) {
-        s = st.back() + opString + s;
+    string s;  // the list may be empty: "{}"
+    for (uint32_t i = 0; i < num; ++i) {
+        s = (i == 0) ? st.back() : st.back() + opString + s;
         st.pop_back();
     }
     st.push_back("{ " + s + " }");
